@@ -30,9 +30,21 @@ asn1f_class_access(arg_t *arg, asn1p_expr_t *rhs_pspecs, const asn1p_ref_t *ref)
 		return NULL;
 	}
 	if(ioclass->expr_type == A1TC_REFERENCE) {
+        asn1p_expr_t *ioref = ioclass;
+        /*
+         * Recursive loops detection: A ::= A.&id
+         */
+        if(ioref->_mark & TM_RECURSION) {
+            DEBUG("Recursion loop detected for %s at line %d",
+                  asn1f_printable_reference(ref), ref->_lineno);
+            errno = EPERM;
+            return NULL;
+        }
+        ioref->_mark |= TM_RECURSION;
         ioclass = WITH_MODULE(
-            ioclass->module,
-            asn1f_lookup_symbol(arg, ioclass->rhs_pspecs, ioclass->reference));
+            ioref->module,
+            asn1f_lookup_symbol(arg, ioref->rhs_pspecs, ioref->reference));
+        ioref->_mark &= ~TM_RECURSION;
         if(ioclass == NULL) {
 			errno = ESRCH;
 			return NULL;
